@@ -53,9 +53,13 @@ Sane == InTable => Expect(c.enc, c.kind, c.alg, c.as, c.cor) \in {"RoundTrips", 
 OnlyIntactRoundTrips == (InTable /\ Expect(c.enc, c.kind, c.alg, c.as, c.cor) = "RoundTrips") => c.cor = "none"
 
 \* ---- signatures: [signer, verifier, message altered?, signature transformation]
+\* verifier key "weak": a public key that no private key generates (ed25519: the points of small order,
+\* secp256r1: the point at infinity) - in the ideal functionality nobody ever signed under it, so nothing
+\* verifies; signature "crafted": bytes made without any private key (ed25519: R of small order, S = 0;
+\* secp256r1: r, s in {0, 1})
 SigCases == {[alg |-> a, key |-> k, msg |-> m, sig |-> s] :
-                a \in Algs, k \in {"same", "other", "other_alg"}, m \in {"same", "altered", "empty"},
-                s \in {"intact", "truncate", "extend", "empty", "flip_first", "flip_last", "reencoded"}}
+                a \in Algs, k \in {"same", "other", "other_alg", "weak"}, m \in {"same", "altered", "empty"},
+                s \in {"intact", "truncate", "extend", "empty", "flip_first", "flip_last", "reencoded", "crafted"}}
 SigVerifies(s) == s.key = "same" /\ s.msg = "same" /\ s.sig = "intact"
 
 Export ==
